@@ -189,7 +189,7 @@ def main():
     except (Refuse, SyntaxError, OSError) as r:
         refused = str(r)
         snap = open(FALLBACK_FILE).read().replace("Definition refused : bool := false.", "Definition refused : bool := true.")
-        text = "(* REFUSED by the translator: " + refused[:140].replace("*", "x").replace("(", "[").replace(")", "]") + \
+        text = "(* REFUSED by the translator: " + refused[:140].replace("*", "x").replace("(", "[").replace(")", "]").replace('"', "'") + \
                " - the last verified translation (harness/UpdateGen.fallback.v) stands in *)\n" + snap
     try:
         old = open(out_path).read()
